@@ -106,6 +106,7 @@ class Registry:
         self.classes: Dict[str, ClassContract] = {}
         self.fns: Dict[str, FnContract] = {}
         self.lemmas: List[Dict[str, Any]] = []
+        self.specfns: Dict[str, Dict[str, Any]] = {}
         self.obligation_props: Dict[str, Tuple[str, ...]] = {}
 
     # -- DSL ---------------------------------------------------------------------------------
@@ -216,6 +217,22 @@ cls = REG.cls
 fn = REG.fn
 
 
+def specfn(name: str, params: List[str], rec: str, base: str, step: str, returns: str) -> None:
+    """a recursive specification function (a ghost function with `decreases rec`):
+         name(params) == base                 if rec <= 0
+         name(params) == step                 if rec >  0      (step may call name(.., rec - 1, ..))
+    `base` and `step` are expressions of the clause language.  With concrete arguments the
+    function is evaluated by recursion; with symbolic ones it is an uninterpreted z3 function and
+    every application that a clause mentions is unfolded once (its defining equation is assumed)."""
+    import ast as _ast
+
+    REG.specfns[name] = {
+        "name": name, "params": list(params), "rec": rec, "returns": returns,
+        "base": _ast.parse(base, mode="eval").body, "step": _ast.parse(step, mode="eval").body,
+        "base_text": base, "step_text": step,
+    }
+
+
 def load_contracts(directory: str) -> Registry:
     """(re)load every contracts/*.py file into the global registry"""
     import glob
@@ -224,6 +241,7 @@ def load_contracts(directory: str) -> Registry:
 
     REG.classes.clear()
     REG.fns.clear()
+    REG.specfns.clear()
     for path in sorted(glob.glob(os.path.join(directory, "*.py"))):
         name = "pyvc_contracts_" + os.path.basename(path)[:-3]
         spec = importlib.util.spec_from_file_location(name, path)
